@@ -41,10 +41,13 @@ NOT_APPLICABLE = {
 
 
 SERVER_TOO = 'server-too'
+NATIVE_SERVER = 'native-server'
 
 
 def prop(pid, *flags, **kw):
     PROPS[pid] = dict(id=pid, verus=[], kani=[], native=[], assumptions=[], bounded=[], not_covered='') | kw
+    if NATIVE_SERVER in flags:
+        PROPS[pid]['native'] = list(PROPS[pid]['native']) + ['server_wire_bounded']
     if SERVER_TOO in flags:
         PROPS[pid]['verus'] = list(PROPS[pid]['verus']) + ['server']
         for a in ['A-abortable', 'A-sink', 'A-mpsc', 'A-delayqueue']:
@@ -92,13 +95,13 @@ prop('C09', SERVER_TOO, title='Transport failures are contained and reported',
      level_text='Proof that each transport wrapper tags a failure with its activity and that the tag survives `?` up to run(); that a failed request write removes and fails only that call and is not fatal; that start_send is never reached after a reported failure (its precondition); panic freedom of every extracted function (expect/unwrap/DelayQueue preconditions discharged).',
      level_note='shut_down_with_terminal_error is under contract (every queued caller with an open receiver is delivered the channel error; only channel errors are delivered; the transport is not touched again) with complete_all_requests cut to an ASSUMED contract (R11: impl Iterator over a draining map). Server: BaseChannel/Requests error tagging and containment are proved in unit server.',
      not_covered='RequestDispatch::poll (dyn-Any downcast of the stored terminal error), complete_all_requests itself, Drop for server::InFlightRequests (aborts on channel drop)')
-prop('C10', SERVER_TOO, title='Shutdown is orderly: queued work is drained first',
+prop('C10', SERVER_TOO, NATIVE_SERVER, title='Shutdown is orderly: queued work is drained first',
      verus=['client'], native=['client_wire_bounded'], technique=TECH_V,
      assumptions=COMMON_V + ['A-sink', 'A-mpsc', 'A-oneshot', 'A-delayqueue'],
      level_text='Proof that pump_write returns Ready(None) only when both queues are drained, the transport is closed and nothing is unflushed (invariant: closed => both queues drained); that run() returns Ok only if the read side ended or the write side closed with an empty table.',
      level_note='That dropping the dispatch future fails the remaining callers is Rust drop glue + A-oneshot.',
      not_covered='server side (unit server)')
-prop('C11', SERVER_TOO, title='Tracked request state is bounded and fully reclaimed',
+prop('C11', SERVER_TOO, NATIVE_SERVER, title='Tracked request state is bounded and fully reclaimed',
      verus=['client', 'cancellations'],
      technique='Verus: representation invariant (timers<->entries bijection) + whole-view postconditions on the real table functions, extracted from /repo each run',
      level_text='Deductive proof, for all table states and all ids, that every public operation of the real in-flight tables preserves the timers<->entries bijection and changes the abstract view exactly as specified; the history quantifier is discharged by the invariant (every call sequence is a sequence of contracted calls).',
@@ -113,7 +116,7 @@ prop('C15', title='Shipped transports deliver messages intact and in order',
      assumptions=['A-codec', 'A-verifiers'],
      not_covered='length-delimited framing under fragmentation, serde-derived schemas, FIFO of the tokio/futures queues and end-of-stream signalling are dependency code (A-codec, A-mpsc): not claimed')
 
-prop('C14', SERVER_TOO, title="tarpc honours the pluggable transport's contract",
+prop('C14', SERVER_TOO, NATIVE_SERVER, title="tarpc honours the pluggable transport's contract",
      verus=['client'], native=['client_wire_bounded'], technique=TECH_V + '; the transport model\'s start_send preconditions are the property\'s write conditions',
      assumptions=COMMON_V + ['A-sink', 'A-mpsc'],
      level_text='Proof that every start_send call site of the client dispatch establishes ready && !failed && !closed; that pump_write/run go idle only with unflushed == 0 or the flush waker registered; and the bounded-retry clause: ensure_writeable polls readiness at most twice per call (ghost counter np) and returns Pending with a transport waker registered.',
@@ -133,7 +136,7 @@ prop('C18', SERVER_TOO, title='Trace context follows the request, and only that 
      level_note='Child-context derivation (new_child, server start_request) is in K6/unit server when registered.',
      not_covered='OpenTelemetry bridge')
 
-prop('C04', title='Servers stop cancelled work and cancellation cascades',
+prop('C04', NATIVE_SERVER, title='Servers stop cancelled work and cancellation cascades',
      verus=['server', 'cancellations'], technique=TECH_V,
      assumptions=COMMON_V + ['A-abortable', 'A-delayqueue', 'A-sink', 'A-mpsc'],
      level_text='Proof that a Cancel message aborts exactly the handle stored for that id, untracks it and removes its timer, and changes nothing for an unknown id; that BaseChannel::start_send drops a response whose id is no longer tracked (nothing is transmitted after a cancel); that reading never produces effects other than aborts; that every poll of a channel polls its inbound side (control traffic is processed). The cascade step (an aborted handler drops its nested calls, whose guards cancel downstream) rests on A-abortable + the client guard contract.',
@@ -144,13 +147,13 @@ prop('C06', title='Server enforces request deadlines, never early',
      assumptions=COMMON_V + ['A-abortable', 'A-delayqueue', 'A-clock', 'A-sink'],
      level_text='Proof that start_request arms exactly one timer for the id with delay min(deadline - now, MAX_TIMER_DELAY); that an expiry aborts exactly the handle of the id its timer carried, removes that entry only; that a response for an expired id is dropped by start_send. Kani proves the arithmetic of time_until on the real code.',
      level_note='Known finding F8 is shared with C04. Timer accuracy is tokio-util\'s.')
-prop('C08', title='One handler and at most one response per request',
+prop('C08', NATIVE_SERVER, title='One handler and at most one response per request',
      verus=['server'], technique=TECH_V,
      assumptions=COMMON_V + ['A-abortable', 'A-delayqueue', 'A-sink', 'A-mpsc'],
      level_text='Proof that BaseChannel::poll_next yields a TrackedRequest only for an id that was not tracked at that moment and tracks it (a duplicate id yields nothing and changes nothing); that start_send writes a response iff its id is tracked and untracks it (so between two transmissions of an id there is a fresh read of it on this channel, and every transmitted response answers a request read here); that Requests forwards at most one response per pass through that start_send and wraps each TrackedRequest into exactly one InFlightRequest.',
      level_note='Generic over the Channel contract: holds for BaseChannel and for MaxRequests<C> stacked on any quiet channel. InFlightRequest::execute is under contract: one handler invocation, one response bearing the request id, guard disarmed on every completion path.',
      not_covered='id reuse after cancellation while the old handler\'s response is still queued')
-prop('C12', title='Per-channel request limit throttles exactly the excess',
+prop('C12', NATIVE_SERVER, title='Per-channel request limit throttles exactly the excess',
      verus=['server'], technique=TECH_V + '; the inner channel is an arbitrary implementation of the proved Channel contract',
      assumptions=COMMON_V + ['A-sink'],
      level_text='Proof, for an arbitrary inner channel satisfying the Channel contract (which BaseChannel is proved to satisfy), that MaxRequests hands out a request only while fewer than L others are in flight; that everything it writes while reading is a WouldBlock error reply for a request it just read, sent through start_send (which untracks it, so it is never executed); and the clause "refused only if L others really were in flight when it was read".',
